@@ -1168,6 +1168,13 @@ fn gen_c05(ctx: &mut Ctx) {
         // ... every fourth one by a write elsewhere whose sink panicked (contained on another thread); every fifth stream ends
         // without the last frame's CR LF
         let line = format!("WIRES {}{}{}{}", if k % 4 == 1 { "! " } else { "" }, if k % 4 == 3 { "@ " } else { "" }, if k % 5 == 2 { "$ " } else { "" }, msgs.join(" "));
+        if k % 6 == 4 {
+            // the same stream written into a sink that tunnels everything it gets in carrier frames of its own
+            let line = format!("WIRES & {}", msgs.join(" "));
+            let res = ctx.case(line.clone(), true, "stream-through-a-tunnelling-sink");
+            let want = format!("{} | left=0", msgs.iter().map(|m| format!("OK {}", m)).collect::<Vec<_>>().join(" ; "));
+            ctx.monitor(res == want, "C05-roundtrip", &line[..line.len().min(300)], &res[..res.len().min(200)]);
+        }
         let res = ctx.case(line.clone(), true, "stream-of-messages");
         let want = format!("{} | left=0", msgs.iter().map(|m| format!("OK {}", m)).collect::<Vec<_>>().join(" ; "));
         ctx.monitor(res == want, "C05-roundtrip", &line[..line.len().min(300)], &res[..res.len().min(200)]);
